@@ -107,6 +107,35 @@ def source_hashes(src):
     return out
 
 
+def functions_of_lines(src, lines):
+    """The functions of the source tree whose body was entered by the interpreter on this run (from the statement lines it
+    reached), and the functions of the files touched that were never entered."""
+    import ast
+
+    reached, missed = set(), set()
+    bymod = {}
+    for mod, ln in lines:
+        bymod.setdefault(mod, set()).add(ln)
+    for mod, lns in bymod.items():
+        path = os.path.join(src, *mod.split(".")) + ".py"
+        if not os.path.exists(path):
+            path = os.path.join(src, *mod.split("."), "__init__.py")
+            if not os.path.exists(path):
+                continue
+        tree = ast.parse(open(path).read())
+
+        def walk(node, pref):
+            for n in node.body:
+                if isinstance(n, (ast.FunctionDef, ast.AsyncFunctionDef)):
+                    body_lines = {x.lineno for st in n.body for x in ast.walk(st) if hasattr(x, "lineno")}
+                    (reached if body_lines & lns else missed).add(mod + ":" + pref + n.name)
+                elif isinstance(n, ast.ClassDef):
+                    walk(n, pref + n.name + ".")
+
+        walk(tree, "")
+    return sorted(reached), sorted(missed)
+
+
 def load_known_findings():
     p = os.path.join(ROOT, "known_findings.json")
     if not os.path.exists(p):
@@ -366,6 +395,9 @@ def write_evidence(a, prop, pl, C, sel, results, obligations, n_obl, n_dis, by_b
         "samples": samples or [{"note": "no obligations"}],
         "explanation": pl["explanation"],
         "functions_under_contract": sorted(functions),
+        "functions_interpreted": functions_of_lines(src, lines)[0],
+        "functions_of_touched_files_never_entered": functions_of_lines(src, lines)[1],
+        "functions_declared_but_only_stubbed_here": sorted(set(functions) - set(functions_of_lines(src, lines)[0])),
         "by_backend": by_backend,
         "by_domain": by_domain,
         "bounded_standin": (mon or None) and {k: mon.get(k) for k in ("name", "evaluations", "distinct_nontrivial", "rule", "bound", "violations_n", "summary", "assumptions_checked")},
